@@ -39,19 +39,6 @@ Definition arr_needs_wrap (p : ientry * Z) : bool :=
   | _ => false
   end.
 
-(* consumed entries of the expanded index that keep their axis (everything but integers) *)
-Definition n_kept (sh : shape) (ix : index) : Z :=
-  match expand (Z.of_nat (length sh)) ix with
-  | Ok ex => countb (fun e => consumes e && negb (is_iint e)) ex
-  | Raise _ => -1
-  end.
-Fixpoint int_before_none (seen_int : bool) (ix : index) : bool :=
-  match ix with
-  | [] => false
-  | IInt _ :: r => int_before_none true r
-  | INone :: r => seen_int || int_before_none seen_int r
-  | _ :: r => int_before_none seen_int r
-  end.
 Definition neg_start_or_step (sh : shape) (ix : index) : bool :=
   match normalize_index ix sh with
   | Ok nix => existsb (fun e => match e with NSlice s _ st => (s <? 0) || (st <? 0) | _ => false end) nix
@@ -63,12 +50,9 @@ Definition clause_of (fmt : Z) (unsigned : bool) (sh : shape) (ix : index) : Z :
   let nd2 := (2 <=? length sh)%nat in
   if negb (in_grammar ix) then 9                                          (* outside the property's grammar *)
   else if unsigned && (fmt =? fmt_gcxs) && nd2 then 3                     (* gcxs_getitem_unsigned_indices *)
-  (* a 1-d GCXS delegates to COO; the GCXS code proper runs for ndim >= 2 (and breaks for 0-d) *)
-  else if (fmt =? fmt_gcxs) && is_nil sh then 5                           (* D22 gcxs 0-d *)
+  (* a 0-d / 1-d GCXS and, for ndim >= 2, every key with None delegate to COO (fix a4762ef: the former clauses
+     5 — D22 —, 10 — D27 —, 11 — D28 — are repaired, a recurrence is a plain violation) *)
   else if (fmt =? fmt_gcxs) && nd2 && (1 <? countb is_iarr ix) then 4     (* D21 *)
-  else if (fmt =? fmt_gcxs) && nd2 && existsb is_new ix && (n_kept sh ix =? 0) then 5     (* D22 gcxs *)
-  else if (fmt =? fmt_gcxs) && nd2 && existsb is_new ix && (n_kept sh ix =? 1) then 10    (* D27 *)
-  else if (fmt =? fmt_gcxs) && nd2 && existsb is_new ix && int_before_none false ix then 11   (* D28 *)
   (* DOK: a non-empty key of index sequences that does not name every axis is refused (NotImplementedError).
      (The former DOK clauses 6 — x[()] —, 7 — D24, unnormalised fancy keys — and 8 — 0-d DOK — are repaired:
      a recurrence is a plain violation.) *)
